@@ -23,6 +23,13 @@ pub fn resp_datum() -> impl Strategy<Value = RespDatum> {
         ].prop_map(|v| RespDatum::Block(B(v))),
         2 => "[A-Za-z][A-Za-z0-9_]{0,11}".prop_map(|s| RespDatum::Chr(s.into())),
         1 => "[ !$-&*-:<-~]{0,10}".prop_map(|s| RespDatum::Expr(s.into())),
+        // a list handed over as one datum; items may have an empty text (an unset label)
+        1 => proptest::collection::vec(prop_oneof![2 => Just(String::new()), 3 => "[A-Z][A-Za-z0-9_]{0,5}"], 1..=8).prop_map(|mut v| {
+            // a list of one empty item would make a response unit without any text: whether that counts as
+            // "a query produced output" is not something the property settles, so it is not generated
+            if v.len() == 1 && v[0].is_empty() { v[0] = "A".into(); }
+            RespDatum::ChrList(v.into_iter().map(B::from).collect())
+        }),
     ]
 }
 
@@ -39,12 +46,17 @@ pub fn response() -> impl Strategy<Value = (Vec<B>, Vec<RespDatum>)> {
     )
 }
 
+/// Whether (and after how many data) the handler calls `finish()` an extra time, ignoring the result.
+pub fn mid_finish() -> impl Strategy<Value = Option<u8>> {
+    prop_oneof![3 => Just(None), 1 => (0u8..6).prop_map(Some)]
+}
+
 /// A plan per unit that consumes exactly the unit's data (greedy) and, for
 /// queries, responds with generated data: the message succeeds by construction.
 pub fn succeeding_plans(msg: &Msg) -> BoxedStrategy<Vec<UnitPlan>> {
     let n = msg.units.len();
-    proptest::collection::vec(response(), n)
-        .prop_map(|rs| rs.into_iter().map(|(headers, respond)| UnitPlan { pulls: vec![], greedy: true, headers, respond, fail: None, swallow: false }).collect())
+    proptest::collection::vec((response(), mid_finish()), n)
+        .prop_map(|rs| rs.into_iter().map(|((headers, respond), mid_finish)| UnitPlan { pulls: vec![], greedy: true, headers, respond, fail: None, swallow: false, mid_finish }).collect())
         .boxed()
 }
 
